@@ -201,7 +201,11 @@ def run_case(case):
     logging.disable(logging.CRITICAL)
     fault, sched = case['fault'], {int(k): v for k, v in case['schedule'].items()}
     loop = detloop.DetLoop()
-    asyncio.set_event_loop(loop)
+    # the process lives on `loop`; what the calling thread has as its current loop varies with the case: that loop, another one
+    # that never runs, or none at all (requests made from outside a callback then must not depend on the current loop)
+    import json as _json, zlib as _zlib
+    mode = case.get('loop_mode') or ('own', 'foreign', 'none')[_zlib.crc32(_json.dumps(case, sort_keys=True, default=str).encode()) % 3]
+    detloop.use_loop(loop, foreign={'own': False, 'foreign': True, 'none': 'none'}[mode])
     loop_errs, gc_notes = [], []
     fault_name = 'user8' if fault is not None and fault[0] == 'callback' else 'user99'
 
